@@ -217,6 +217,9 @@ def impl(case):
     if not out["file_forms_ok"]:
         out["file_forms_counterexample"] = ff
     out["pkg_async_values"] = attempt(lambda: [SX.canon(v) for v in asyncio.run(jsonpath.findall_async(text, deep(case["doc"]), filter_context=ctx))])
+    if isinstance(case["doc"], (dict, list)):
+        from .evalbase import custom_functions_agree
+        out["custom_functions"] = custom_functions_agree(case["doc"], case["ctx"])
     return out
 
 
@@ -236,6 +239,8 @@ def decode(sx, case):
         model["gathered_first"] = model["async_values"]
     model["pkg_async_values"] = model["async_values"]
     model["file_forms_ok"] = True
+    if isinstance(case["doc"], (dict, list)):
+        model["custom_functions"] = "same"
     if "other" in case:
         model["concurrent_ok"] = True
     # the property is an equivalence: the specification of the async results is the sync result
@@ -245,6 +250,8 @@ def decode(sx, case):
         spec_["gathered_first"] = sync_v
     if "other" in case:
         spec_["concurrent_ok"] = True
+    if isinstance(case["doc"], (dict, list)):
+        spec_["custom_functions"] = "same"
     return {"model": model, "spec": spec_, "in_domain": wf[1] == "true"}
 
 
@@ -259,6 +266,8 @@ def project(case, res, dec=None):
         out["gathered_first"] = res.get("gathered_first")
     if "other" in case:
         out["concurrent_ok"] = res.get("concurrent_ok")
+    if "custom_functions" in res:
+        out["custom_functions"] = res["custom_functions"]
     if res.get("async_values") != res.get("values") or res.get("async_matches") != res.get("matches"):
         out["sync_async_differ_in_impl"] = {"values": res.get("values"), "matches": res.get("matches")}
     return out
